@@ -81,7 +81,14 @@ def main():
         if os.environ.get("MUT_FAST"):      # owner first; the other 17 only when the owner stays quiet
             res = run_checks("%s/patch%s.diff" % (o, k), [cid])
             if "error" not in res and res[cid]["rc"] == 0:
-                res = run_checks("%s/patch%s.diff" % (o, k), ALL)
+                if os.environ.get("MUT_NEIGHBOURS"):     # the checks that exercise the same code, not all 18 (time)
+                    fam = [["C01", "C02", "C03", "C04", "C05", "C06", "C07", "C08", "C09", "C17"], ["C13", "C14", "C15", "C16", "C18"], ["C02", "C04", "C10", "C11", "C12", "C18"]]
+                    near = sorted(set(x for f in fam if cid in f for x in f))
+                    res = run_checks("%s/patch%s.diff" % (o, k), near)
+                    for p in ALL:
+                        res.setdefault(p, {"rc": 0, "summary": "not run (MUT_NEIGHBOURS)", "violations": [], "failing_inputs": [], "kind": None})
+                else:
+                    res = run_checks("%s/patch%s.diff" % (o, k), ALL)
             elif "error" not in res:
                 for p in ALL:
                     res.setdefault(p, {"rc": 0, "summary": "not run (MUT_FAST: the owner check reported the change)", "violations": [], "failing_inputs": [], "kind": None})
